@@ -100,53 +100,95 @@ def declaredParamWriters : List (String × String) := [
 def writerOk (e : String × String × List String) : Bool :=
   e.2.1 == "__init__" || declaredMutators.contains (e.1, e.2.1)
 
-/-! ## derived caches follow their source attribute (method resolution + self-call closure over the generated tables) -/
+/-! ## derived caches follow their source attribute (method resolution + call closure over the generated event lists)
 
-def basesOf (c : String) : List String := ((objBases.find? (·.1 == c)).map (·.2)).getD []
+Every lookup is `Option`-valued: a class or method missing from the tables, or an exhausted call depth, makes the whole
+closure `none`, and `cacheFollows` demands `some`. -/
+
+def basesOf? (c : String) : Option (List String) := (objBases.find? (·.1 == c)).map (·.2)
+def methodsOf? (c : String) : Option (List String) := (objMethods.find? (·.1 == c)).map (·.2)
 
 /-- linearised ancestry (single inheritance among the scanned classes), the class itself first -/
-def mro : Nat → String → List String
-  | 0, c => [c]
-  | n + 1, c => c :: (match basesOf c with | b :: _ => mro n b | [] => [])
-
-def definesMethod (c m : String) : Bool := ((objMethods.find? (·.1 == c)).map (·.2.contains m)).getD false
+def mro : Nat → String → Option (List String)
+  | 0, _ => none
+  | n + 1, c => do
+      let bs ← basesOf? c
+      match bs with
+      | [] => some [c]
+      | b :: _ => (mro n b).map (c :: ·)
 
 /-- the class of `chain` whose definition of `m` is executed, and the classes after it (for `super()`) -/
 def resolve (m : String) : List String → Option (String × List String)
   | [] => none
-  | c :: rest => if definesMethod c m then some (c, rest) else resolve m rest
+  | c :: rest => do
+      let ms ← methodsOf? c
+      if ms.contains m then some (c, rest) else resolve m rest
 
-def directWrites (c m : String) : List String := ((objWriters.find? (fun e => e.1 == c && e.2.1 == m)).map (·.2.2)).getD []
-def callsOf (c m : String) : List String := ((objCalls.find? (fun e => e.1 == c && e.2.1 == m)).map (·.2.2.1)).getD []
-def superCallsOf (c m : String) : List String := ((objCalls.find? (fun e => e.1 == c && e.2.1 == m)).map (·.2.2.2)).getD []
+/-- events of method `m` of class `c` (a method that binds nothing and calls nothing has no entry: empty list) -/
+def eventsOf (c m : String) : List (String × String) :=
+  ((objEvents.find? (fun e => e.1 == c && e.2.1 == m)).map (·.2.2)).getD []
 
-/-- attributes bound when `m` is called on an object of class `cls` (dynamic dispatch from `cls` for self-calls,
-continuation of the ancestry for `super().m`), up to call depth `fuel` -/
-def effWrites (cls : String) : Nat → List String → String → List String
-  | 0, _, _ => []
-  | fuel + 1, chain, m =>
-      match resolve m chain with
-      | none => []
-      | some (c, rest) =>
-          directWrites c m
-            ++ ((callsOf c m).map fun callee => effWrites cls fuel (mro 8 cls) callee).flatten
-            ++ ((superCallsOf c m).map fun callee => effWrites cls fuel rest callee).flatten
+/-- attributes bound, **in evaluation order**, when `m` is called on an object of class `cls` (dynamic dispatch from `cls`
+for self-calls, continuation of the ancestry for `super().m`). `none`: unknown class / method, or call depth exhausted. -/
+def effWrites (cls : String) (full : List String) : Nat → List String → String → Option (List String)
+  | 0, _, _ => none
+  | fuel + 1, chain, m => do
+      let (c, rest) ← resolve m chain
+      let parts ← (eventsOf c m).mapM fun ev =>
+        if ev.1 == "w" then some [ev.2]
+        else if ev.1 == "c" then effWrites cls full fuel full ev.2
+        else if ev.1 == "s" then effWrites cls full fuel rest ev.2
+        else none
+      some parts.flatten
 
-def allMethods (cls : String) : List String := ((mro 8 cls).map fun c => ((objMethods.find? (·.1 == c)).map (·.2)).getD []).flatten
+def lastIdx (a : String) (l : List String) : Option Nat :=
+  (l.zipIdx.filter (·.1 == a)).getLast?.map (·.2)
 
-/-- (class, source attribute, cache derived from it) -/
-def derivedCaches : List (String × String × String) := [
-  ("StandardQTomographyBasedWeightedProbabilityBasedSquaredError", "_weight_matrices", "_extend_weight_matrix"),
-  ("StandardQTomographyBasedWeightedProbabilityBasedSquaredError", "_prob_dists_q", "_prob_dists_q_flat"),
-  ("StandardQTomographyBasedWeightedRelativeEntropy", "_prob_dists_q", "_prob_dists_q_flat"),
-  ("StandardQTomographyBasedWeightedRelativeEntropy", "_weights", "_extend_weights")]
+/-- (class, source attribute, cache derived from it, the cache is recomputed from the *attribute* — so it has to be bound
+after the source — rather than from the same argument) -/
+def derivedCaches : List (String × String × String × Bool) := [
+  ("StandardQTomographyBasedWeightedProbabilityBasedSquaredError", "_weight_matrices", "_extend_weight_matrix", true),
+  ("StandardQTomographyBasedWeightedProbabilityBasedSquaredError", "_prob_dists_q", "_prob_dists_q_flat", false),
+  ("StandardQTomographyBasedWeightedRelativeEntropy", "_prob_dists_q", "_prob_dists_q_flat", false),
+  ("StandardQTomographyBasedWeightedRelativeEntropy", "_weights", "_extend_weights", true)]
 
-/-- every method of the class (own or inherited, constructors excepted) that binds the source also binds the cache -/
-def cacheFollows (e : String × String × String) : Bool :=
-  (allMethods e.1).all fun m =>
-    m == "__init__" ||
-      (let w := effWrites e.1 6 (mro 8 e.1) m
-       !w.contains e.2.1 || w.contains e.2.2)
+/-- every method of the class (own or inherited, constructors excepted) whose closure binds the source also binds the
+cache — after the last binding of the source when the cache is computed from the attribute; the closure must be defined -/
+def cacheFollows (e : String × String × String × Bool) : Bool :=
+  match mro 8 e.1 with
+  | none => false
+  | some full =>
+      match full.mapM methodsOf? with
+      | none => false
+      | some mss =>
+          mss.flatten.all fun m =>
+            m == "__init__" ||
+              (match effWrites e.1 full 8 full m with
+               | none => false
+               | some w =>
+                   match lastIdx e.2.1 w, lastIdx e.2.2.1 w with
+                   | none, _ => true
+                   | some _, none => false
+                   | some i, some j => !e.2.2.2 || i < j)
+
+/-! ## weighting modes -/
+
+def branchAction (tbl : List (List String × String)) (m : String) : Option String :=
+  (tbl.find? (·.1.contains m)).map (·.2)
+
+/-- an accepted mode string has a branch, the branch is not `pass`, and it is the action the model's `lstep` performs -/
+def modeHandled (tbl : List (List String × String)) (m : String) : Bool :=
+  match branchAction tbl m, modeOfString m with
+  | some a, some md => a == md.action && a != "keep"
+  | _, _ => false
+
+/-- name of the setter a model operation stands for, and its guard in `set_from_standard_qtomography_option_data` -/
+def LOp.name {A Q W : Type} : LOp A Q W → String × String
+  | .setOption _ _ => ("set_from_option", "always")
+  | .setQ _ => ("set_prob_dists_q", "always")
+  | .setFuncProb _ => ("set_func_prob_dists_from_standard_qt", "always")
+  | .setFuncGrad _ => ("set_func_gradient_prob_dists_from_standard_qt", "is_gradient_required")
+  | .setWeightsByMode _ _ => ("_set_weights_by_mode", "always")
 
 /-! ## algorithm object -/
 
